@@ -27,7 +27,7 @@ _NAME = r"[A-Za-z0-9_.$]*"
 _GNAME = r'(?:"[^"\n]*"|' + _NAME + r")"
 _TMP = re.compile(r"%(" + _NAME + r")")
 _RE_TYPE = re.compile(r"^type (:" + _NAME + r") = (.*)$")
-_RE_DATA = re.compile(r"^(thread )?(export )?data \$(" + _GNAME + r") = align (\d+) \{ (.*)\}$")
+_RE_DATA = re.compile(r"^(thread )?(export )?data \$(" + _GNAME + r") = (?:align (\d+) )?\{ (.*)\}$")
 _RE_FUNC = re.compile(r"^function (?:([wlsd]|:" + _NAME + r") )?\$(" + _GNAME + r")\((.*)\) \{$")
 _RE_LABEL = re.compile(r"^@(" + _NAME + r")$")
 _FLT = r"[sd]_(?:-?(?:inf|nan)|-?[0-9.]+(?:e[-+]?\d+)?)"
@@ -152,13 +152,13 @@ def _split_items(body):
 
 
 def _parse_data(m, line):
-    d = {"name": m.group(3), "thread": bool(m.group(1)), "export": bool(m.group(2)), "align": int(m.group(4)), "items": []}
+    d = {"name": m.group(3), "thread": bool(m.group(1)), "export": bool(m.group(2)), "align": int(m.group(4)) if m.group(4) else None, "items": []}
     items, tail = _split_items(m.group(5))
     # the body is either "item, item, " (tail "") or "item, ..., z N " (tail "z N ")
     if tail != "":
-        if not re.match(r"^z \d+ $", tail):
+        if not tail.endswith(" "):
             raise ILSyntaxError("bad data tail %r in %r" % (tail, line))
-        items.append(tail.rstrip())
+        items.append(tail[:-1])
     for it in items:
         mo = re.match(r"^z (\d+)$", it)
         if mo:
